@@ -58,6 +58,9 @@ def make_cases(rng, tier):
     for i in range(n // 2):            # K-free half: any divergence here is a new violation
         g = kfree.KFree(rng)
         cs.append((g.price, g.history(rng.randint(5, 30)) + ["MATCH 18446744073709551615 u7999"]))
+    for i in range(max(15, n // 80)):  # long K-free histories (thresholds inside the queue code)
+        g = kfree.KFree(rng)
+        cs.append((g.price, g.history(rng.randint(150, 400)) + ["MATCH 18446744073709551615 u7999"]))
     for i in range(n // 2):            # unrestricted half (re-adds, partial fills, replenishment, amendments)
         g = lvl.HistGen(rng, rebuilds=False, reads=False)
         cs.append((g.price, g.history(rng.randint(5, 30)) + ["MATCH 18446744073709551615 u7999"]))
